@@ -265,7 +265,7 @@ package ugo
 //@ params vm err noTrace
 //@ results r
 //@ requires vm != nil
-//@ modifies vm.sp, vm.ip, vm.stack, vm.curFrame, vm.frameIndex, vm.curInsts, vm.frames, vm.constants
+//@ modifies vm.sp, vm.ip, vm.stack, vm.curFrame, vm.frameIndex, vm.curInsts, vm.constants
 //@ trusted
 //@ property C03
 
@@ -296,3 +296,20 @@ package ugo
 //@ modifies buf[*]
 //@ cases op: 0..43
 //@ property C05 C11
+
+// A self-recursive tail call re-uses the frame: afterwards the frame has no
+// handler and no pending error (try statements of the previous iteration have
+// no influence on the next one). A normal call activates a fresh frame
+// without handlers.
+//@ func (*VM).xOpCallCompiled
+//@ params vm cfunc numArgs flags
+//@ results err
+//@ requires vmCallOK(vm, cfunc, numArgs) && (flags == 0 || (flags == 1 && numArgs >= 1))
+//@ ensures[reuse]  err == nil && vm.curFrame == old(vm.curFrame) ==> vm.curFrame.errHandlers == nil && vm.ip == -1
+//@ ensures[fresh]  err == nil && vm.curFrame != old(vm.curFrame) ==> vm.curFrame.errHandlers == nil && vm.curFrame.fn == cfunc && vm.curFrame.basePointer == old(vm.sp)-numArgs && vm.ip == -1 && vm.sp == old(vm.sp)-numArgs+cfunc.NumLocals
+//@ ensures[error]  err != nil ==> vm.curFrame == old(vm.curFrame) && vm.ip == old(vm.ip)
+//@ modifies vm.sp, vm.ip, vm.stack, vm.frameIndex, vm.curInsts, vm.curFrame, vm.curFrame.errHandlers, vm.curFrame.ip
+//@ modifies vm.frames[vm.frameIndex].fn, vm.frames[vm.frameIndex].freeVars, vm.frames[vm.frameIndex].errHandlers, vm.frames[vm.frameIndex].basePointer
+//@ loop 0 invariant numParams <= i && vm.sp == old(vm.sp) && vm.curFrame == old(vm.curFrame) && vm.ip == old(vm.ip) && vm.frameIndex == old(vm.frameIndex)
+//@ loop 1 invariant i <= vm.sp && vm.sp == old(vm.sp) && vm.curFrame == old(vm.curFrame)
+//@ property C03
